@@ -254,6 +254,18 @@ theorem c19_no_silent_removal (cfg : Cfg κ ν) (s : Store ι κ ν) (now : Int)
       have : i ∈ keys s := by rw [← get_isSome_iff_mem, hg]; rfl
       simp [keys_put, this]
 
+/-- The class an incoming message arrives as does not matter for the session: the unified
+`JSONRPCMessage`, the typed classes and what `parse_message` returns are treated alike — in particular a
+typed NOTIFICATION carrying a live session id refreshes that session's activity exactly as the
+unified one does, so it cannot be expired while its client is talking. -/
+theorem c19_envelope_class_irrelevant (cfg : Cfg κ ν) (s : Store ι κ ν) (now : Int)
+    (e e' : Envelope) (sid : Option ι) (k : MsgKind) :
+    dispatchStep cfg s now e sid k = dispatchStep cfg s now e' sid k
+    ∧ (k ≠ .noMethod → (dispatchStep cfg s now e sid k).1 = touchOpt s sid now) := by
+  refine ⟨by cases e <;> cases e' <;> rfl, ?_⟩
+  intro hk
+  cases e <;> cases k <;> simp_all [dispatchStep, step]
+
 end
 
 /-! ## Non-vacuity: concrete histories (ids `Nat`, client info and versions `String`) -/
